@@ -128,6 +128,141 @@ func genIdxTrim(g *hx.Gen, r *hx.Rand) {
 	g.Emit("i.fetchv %d", vol+10100)
 }
 
+// the real UnspentIndex over a real ffldb: blocks with ordinary, output-less (payload-only),
+// coinbase and >100-input transactions are connected and disconnected (tip first); after every
+// step every transaction of the touched block and a few others are fetched.
+func genIndex(g *hx.Gen, r *hx.Rand) {
+	g.Emit("reset")
+	g.Emit("x.reset %d", 2+r.Intn(8))
+	next := 1
+	type out struct{ id, idx int }
+	var unspent []out
+	type blk struct {
+		ids     []int
+		created []out
+		spent   []out
+	}
+	var chain []blk
+	fetchAll := func(ids []int) {
+		for _, id := range ids {
+			g.Emit("x.fetch %d", id)
+		}
+		g.Emit("x.fetch %d", 1+r.Intn(next+1))
+	}
+	steps := 6 + r.Intn(g.N(14, 40))
+	for s := 0; s < steps; s++ {
+		if len(chain) > 0 && r.Chance(30) {
+			b := chain[len(chain)-1]
+			chain = chain[:len(chain)-1]
+			g.Emit("x.disconnect %d", len(chain)+1)
+			// outputs created by the block disappear, outputs it spent come back
+			var keep []out
+			for _, o := range unspent {
+				gone := false
+				for _, c := range b.created {
+					if c == o {
+						gone = true
+					}
+				}
+				if !gone {
+					keep = append(keep, o)
+				}
+			}
+			unspent = append(keep, b.spent...)
+			fetchAll(b.ids)
+			continue
+		}
+		var b blk
+		var specs []string
+		n := 1 + r.Intn(4)
+		avail := append([]out(nil), unspent...) // only outputs of earlier blocks are spent
+		for k := 0; k < n; k++ {
+			id := next
+			next++
+			nout := r.Pick(0, 0, 1, 2, 3)
+			coinbase := k == 0 && r.Chance(60)
+			var ins []string
+			if !coinbase && len(avail) > 0 && r.Chance(60) {
+				m := 1 + r.Intn(2)
+				for j := 0; j < m && len(avail) > 0; j++ {
+					q := r.Intn(len(avail))
+					o := avail[q]
+					avail = append(avail[:q], avail[q+1:]...)
+					ins = append(ins, fmt.Sprintf("%d.%d", o.id, o.idx))
+					b.spent = append(b.spent, o)
+				}
+			}
+			cacheable := 1
+			if coinbase && r.Chance(10) {
+				nout = 101 // a funder for a transaction with more than 100 inputs
+			}
+			if !coinbase && r.Chance(15) {
+				// spend one whole 101-output funder if there is one
+				for _, c := range chain {
+					_ = c
+				}
+				var fid = -1
+				cnt := map[int]int{}
+				for _, o := range avail {
+					cnt[o.id]++
+					if cnt[o.id] == 101 {
+						fid = o.id
+					}
+				}
+				if fid >= 0 {
+					ins = nil
+					// give back what this tx had picked
+					b.spent = b.spent[:len(b.spent)-len(ins)]
+					var rest []out
+					for _, o := range avail {
+						if o.id == fid {
+							ins = append(ins, fmt.Sprintf("%d.%d", o.id, o.idx))
+							b.spent = append(b.spent, o)
+						} else {
+							rest = append(rest, o)
+						}
+					}
+					avail = rest
+					cacheable = 0
+				}
+			}
+			insS := "-"
+			if len(ins) > 0 {
+				insS = strings.Join(ins, "+")
+			}
+			cb := 0
+			if coinbase {
+				cb = 1
+			}
+			specs = append(specs, fmt.Sprintf("%d:%d:%d:%d:%s", id, nout, cacheable, cb, insS))
+			b.ids = append(b.ids, id)
+			for i := 0; i < nout; i++ {
+				b.created = append(b.created, out{id, i})
+			}
+		}
+		g.Emit("x.connect %d %s", len(chain)+1, strings.Join(specs, ";"))
+		// bookkeeping
+		var keep []out
+		for _, o := range unspent {
+			used := false
+			for _, sp := range b.spent {
+				if sp == o {
+					used = true
+				}
+			}
+			if !used {
+				keep = append(keep, o)
+			}
+		}
+		unspent = append(keep, b.created...)
+		chain = append(chain, b)
+		fetchAll(b.ids)
+		for _, sp := range b.spent {
+			g.Emit("x.fetch %d", sp.id)
+		}
+	}
+}
+
 func genBlock(g *hx.Gen, r *hx.Rand) {
 	g.Emit("reset")
 	g.Emit("b.reset")
@@ -191,6 +326,9 @@ func gen(g *hx.Gen) {
 	}
 	for i := 0; i < g.N(1, 3); i++ {
 		genIdxTrim(g, g.R.Fork(uint64(20000+i)))
+	}
+	for i := 0; i < g.N(25, 200); i++ {
+		genIndex(g, g.R.Fork(uint64(25000+i)))
 	}
 	for i := 0; i < g.N(15, 100); i++ {
 		genBlock(g, g.R.Fork(uint64(30000+i)))
